@@ -6,6 +6,7 @@ import NibabelModel.Lemmas.C10_FromHdr
 import NibabelModel.Lemmas.C10_Pub
 import NibabelModel.Lemmas.C10_World
 import NibabelModel.Lemmas.C10_Mem
+import NibabelModel.Generated.C10Own
 /-! Props/C10 — property theorems for C10 (binary headers are faithful to their bytes, byte order and
     repairs).  Part A: byte codec and record codec over EVERY tiling layout; part B: WrapStruct
     operations; part C: endianness guessing; part D: check batteries; part E: obligations over the
@@ -317,12 +318,20 @@ theorem mem_hdr_independent (K : Klass) (m m' : Mem) (ops : List MOp) (hs : m.Se
   have r := Mem.run_hdr_frame K m m' ops hs hrun h hh ht
   exact ⟨by unfold Mem.hdrE; rw [r.2.1], r.2.2⟩
 
-/-- Header operations never write into the caller's memory: over any history in which the caller itself does not
-    write, every container keeps its bytes (construction from it, field assignment, `check_fix`, copies …). -/
+/-- Header operations never write into the caller's memory, and the caller's containers on OTHER memory do not
+    matter either: over any history in which nobody writes through a container exposing the cell of `b`
+    (`Mem.noPokeOn`, stated along the run because such containers can be created during the history), container `b`
+    keeps its bytes — whatever else is overwritten, constructed, assigned, repaired or copied. -/
 theorem mem_bufs_untouched (K : Klass) (m m' : Mem) (ops : List MOp) (hs : m.Sep)
     (hrun : Mem.run K m ops = some m') (b : Nat) (hb : b < m.bufs.length)
+    (hp : Mem.noPokeOn K m ops (m.bufCell b)) : m'.bufBytes b = m.bufBytes b :=
+  (Mem.run_buf_frame_cell K m m' ops hs hrun b hb hp).2.2
+
+/-- the special case stated before the audit: a history without ANY write through a container -/
+theorem mem_bufs_untouched_of_no_poke (K : Klass) (m m' : Mem) (ops : List MOp) (hs : m.Sep)
+    (hrun : Mem.run K m ops = some m') (b : Nat) (hb : b < m.bufs.length)
     (hp : ∀ op ∈ ops, op.isPoke = false) : m'.bufBytes b = m.bufBytes b :=
-  (Mem.run_buf_frame K m m' ops hs hrun b hb hp).2.2
+  mem_bufs_untouched K m m' ops hs hrun b hb (Mem.noPokeOn_of_no_poke K m ops _ hp)
 
 /-- A header built from a block stays faithful to the bytes it was built from: after `Klass(container, e)`
     (`e` given or guessed) and ANY later history that does not write through the new header, its byte order is the
@@ -353,19 +362,52 @@ theorem mem_ctor_faithful_plain (K : Klass) (hK : K.norm = plainNorm K.L) (m m1 
   · cases hn; exact ⟨hE, hB⟩
   · cases hn
 
-/-- `from_fileobj`: the header holds the bytes the file object had at the read position at that moment -/
+/-- `from_fileobj`: the byte order is the given one, or the one GUESSED from the bytes read, and the header holds
+    (the normalisation of) the bytes the file object had at the read position at that moment — for ever after -/
 theorem mem_fromFile_faithful (K : Klass) (m m1 m2 : Mem) (b off : Nat) (e? : Option Endian) (ops : List MOp)
     (hs : m.Sep) (hc : m.step K (.fromFile b off e?) = some m1) (hrun : Mem.run K m1 ops = some m2)
     (ht : ∀ op ∈ ops, op.touches m.hdrs.length = false) :
-    ∃ e s, K.norm e (((m.bufBytes b).drop off).take K.L.size) = some s ∧
+    ∃ e s, (match e? with | some e => some e | none => K.guess (((m.bufBytes b).drop off).take K.L.size)) = some e ∧
+      K.norm e (((m.bufBytes b).drop off).take K.L.size) = some s ∧
       m2.hdrE m.hdrs.length = e ∧ m2.hdrBytes m.hdrs.length = s := by
   have hs1 := Mem.step_sep K m m1 _ hs hc
   simp only [Mem.step] at hc
   split at hc
-  · obtain ⟨e, s, _, hn, hl, hE, hB⟩ := Mem.newHdr_spec K m m1 e? _ hc
+  · obtain ⟨e, s, he, hn, hl, hE, hB⟩ := Mem.newHdr_spec K m m1 e? _ hc
     have r := mem_hdr_independent K m1 m2 ops hs1 hrun m.hdrs.length (by omega) ht
-    exact ⟨e, s, hn, by rw [r.1, hE], by rw [r.2, hB]⟩
+    exact ⟨e, s, he, hn, by rw [r.1, hE], by rw [r.2, hB]⟩
   · cases hc
+
+/-- `copy()` and same-class `from_header` (the operation `.copy` itself, not `as_byteswapped(current order)`): a new
+    header labelled with the source's byte order, holding the normalisation of the source's bytes at that moment
+    (the bytes themselves for the plain classes), whatever happens afterwards to the source or to anything else. -/
+theorem mem_copy_independent (K : Klass) (m m1 m2 : Mem) (h : Nat) (ops : List MOp)
+    (hs : m.Sep) (hc : m.step K (.copy h) = some m1) (hrun : Mem.run K m1 ops = some m2)
+    (ht : ∀ op ∈ ops, op.touches m.hdrs.length = false) :
+    m.hdrs.length ≠ h ∧ m2.hdrE m.hdrs.length = m.hdrE h ∧
+    K.norm (m.hdrE h) (m.hdrBytes h) = some (m2.hdrBytes m.hdrs.length) ∧
+    (K.norm = plainNorm K.L → m2.hdrBytes m.hdrs.length = m.hdrBytes h) := by
+  have hs1 := Mem.step_sep K m m1 _ hs hc
+  simp only [Mem.step] at hc
+  split at hc
+  · rename_i hh
+    obtain ⟨e, s, he, hn, hl, hE, hB⟩ := Mem.newHdr_spec K m m1 _ _ hc
+    cases he
+    have r := mem_hdr_independent K m1 m2 ops hs1 hrun m.hdrs.length (by omega) ht
+    refine ⟨by omega, by rw [r.1, hE], by rw [r.2, hB]; exact hn, ?_⟩
+    intro hK
+    rw [r.2, hB]
+    rw [hK] at hn
+    unfold plainNorm at hn
+    split at hn
+    · exact (Option.some.inj hn).symm
+    · cases hn
+  · cases hc
+
+/-- `as_byteswapped(current order)` IS `copy()` (wrapstruct.py: `if endianness == current: return self.copy()`) -/
+theorem mem_swapTo_same_is_copy (K : Klass) (m : Mem) (h : Nat) :
+    m.step K (.swapTo h (some (m.hdrE h))) = m.step K (.copy h) := by
+  simp [Mem.step]
 
 /-- `copy()`, same-class `from_header` and `as_byteswapped(code)` (also when `code` is the current order, where
     the code returns `self.copy()`): the result is a new header holding (the byte-swap of) the source's bytes at
@@ -402,6 +444,22 @@ theorem mem_binaryblock (L : Layout) (hwf : L.wf = true) (m : Mem) (h : Nat)
     (hl : (m.hdrBytes h).length = L.size) : binaryblock L (m.hdr L h) = m.hdrBytes h :=
   binaryblock_ofBytes L hwf _ _ hl
 
+/-- The ownership skeleton extracted from the AST of the working tree on this run is the one the model assumes:
+    `_structarr` is assigned exactly twice, in `WrapStruct.__init__`, a fresh default record and `.copy()` of the array
+    wrapping the block; `binaryblock` is `tobytes()`; every `copy()` / `as_byteswapped()` goes through the constructor
+    on fresh bytes; `from_fileobj` passes what `read` returned — hence the step function the driver runs on the
+    generated skeleton (`Mem.stepBy … Gen.ownSkel`) is `Mem.step`, the one every `mem_*` theorem is about. -/
+theorem gen_ownership_skeleton_ok :
+    Gen.ownSkel.ok = true ∧ ∀ K : Klass, Mem.stepBy K Gen.ownSkel = Mem.step K := by
+  have h : Gen.ownSkel.ok = true := by decide
+  exact ⟨h, fun K => Mem.stepBy_eq_step K _ h⟩
+
+/-- a skeleton in which the constructor may store the wrapping array (the C10_8 kind of edit) fails the test and
+    describes the aliasing constructor -/
+example : (⟨[.fresh, .wrap], 0, true, [true], [true], [true]⟩ : OwnSkel).ok = false ∧
+    ∀ K : Klass, Mem.stepBy K ⟨[.fresh, .wrap], 0, true, [true], [true], [true]⟩ = Mem.stepAlias K :=
+  ⟨by decide, fun K => Mem.stepBy_wrap K _ (by decide)⟩
+
 def toyL : Layout := ⟨"toy", 2, [⟨"a", 0, 1, 1, .uint⟩, ⟨"b", 1, 1, 1, .uint⟩]⟩
 def toyK : Klass := ⟨toyL, plainNorm toyL, fun _ => some .le, fun _ bs => bs⟩
 
@@ -427,6 +485,23 @@ example : (Mem.run toyK Mem.empty
   decide
 
 example : toyK.norm = plainNorm toyK.L := rfl
+
+/-- non-vacuity of `mem_bufs_untouched`: container 0 is never written through, container 1 (other memory) is -/
+example : Mem.noPokeOn toyK Mem.empty [.alloc true [1, 2], .alloc true [3, 4], .ctor 0 (some .le), .poke 1 0 [9]] 0 ∧
+    (Mem.run toyK Mem.empty [.alloc true [1, 2], .alloc true [3, 4], .ctor 0 (some .le), .poke 1 0 [9]]).isSome = true := by
+  refine ⟨⟨(fun _ _ _ e => by cases e), fun m1 h1 => ?_⟩, by decide⟩
+  cases h1
+  refine ⟨(fun _ _ _ e => by cases e), fun m2 h2 => ?_⟩
+  cases h2
+  refine ⟨(fun _ _ _ e => by cases e), fun m3 h3 => ?_⟩
+  have h : Mem.step toyK (Mem.newBuf (Mem.newBuf Mem.empty true [1, 2]) true [3, 4]) (.ctor 0 (some .le)) =
+      some ⟨[[1, 2], [3, 4], [1, 2]], [⟨0, true⟩, ⟨1, true⟩], [⟨.le, 2⟩]⟩ := by decide
+  rw [h] at h3
+  cases h3
+  refine ⟨fun b off bs e => ?_, fun _ _ => trivial⟩
+  cases e
+  decide
+
 
 /-! ### C. endianness guessing -/
 
